@@ -22,6 +22,7 @@ import (
 	"os"
 	"reflect"
 	"sync"
+	"sync/atomic"
 	"testing"
 	"testing/synctest"
 	"time"
@@ -37,9 +38,12 @@ type bubbleJob struct {
 }
 
 var (
-	bubbleJobs chan bubbleJob
-	bubbleOnce sync.Once
+	bubbleJobs  chan bubbleJob
+	bubbleOnce  sync.Once
+	hungBubbles atomic.Int32
 )
+
+const maxHungBubbles = 3
 
 func startBubbleServer() {
 	bubbleJobs = make(chan bubbleJob)
@@ -73,6 +77,11 @@ func startBubbleServer() {
 // which is how a leaked goroutine shows), or "hang" when the bubble has not
 // finished after `wall` of real time.
 func inBubble(wall time.Duration, f func()) string {
+	if hungBubbles.Load() >= maxHungBubbles {
+		// every hung bubble costs `wall` of real time and leaves its goroutines
+		// behind: after a few, the rest of the run is reported as hung at once
+		return "hang"
+	}
 	bubbleOnce.Do(startBubbleServer)
 	j := bubbleJob{f: f, done: make(chan string, 1)}
 	bubbleJobs <- j
@@ -80,6 +89,7 @@ func inBubble(wall time.Duration, f func()) string {
 	case s := <-j.done:
 		return s
 	case <-time.After(wall):
+		hungBubbles.Add(1)
 		return "hang"
 	}
 }
